@@ -488,72 +488,40 @@ func ruleStaleness(r *Run, rule string) {
 	if fn == nil {
 		return
 	}
-	info := fn.Pkg.TypesInfo
-	// cond: lastUpdate(..).Add(r.maxAge).Before(now)
-	okC, msg := false, "no staleness test of the form lastUpdate(plan).Add(maxAge).Before(now) in filterPlans"
+	fl, paths, okp := r.flowPaths(rule, fn)
+	if !okp {
+		return
+	}
+	info := fl.Info
+	// the staleness test, in any spelling: lastUpdate(plan) older than maxAge relative to now
+	okC, msg := false, "no staleness test (lastUpdate(plan) older than maxAge relative to now) in filterPlans"
 	var pos token.Pos = fn.Decl.Pos()
-	ast.Inspect(fn.Decl.Body, func(n ast.Node) bool {
-		is, ok := n.(*ast.IfStmt)
-		if !ok {
-			return true
-		}
-		c, ok := ast.Unparen(is.Cond).(*ast.CallExpr)
-		if !ok {
-			return true
-		}
-		sel, ok := c.Fun.(*ast.SelectorExpr)
-		if !ok {
-			return true
-		}
-		inner, ok := ast.Unparen(sel.X).(*ast.CallExpr)
-		if !ok {
-			return true
-		}
-		isel, ok := inner.Fun.(*ast.SelectorExpr)
-		if !ok || isel.Sel.Name != "Add" || len(inner.Args) != 1 {
-			return true
-		}
-		base, ok := ast.Unparen(isel.X).(*ast.CallExpr)
-		if !ok {
-			return true
-		}
-		if f, ok := calleeFunc(info, base); !ok || FuncKey(f) != execKey("lastUpdate") {
-			return true
-		}
-		pos = is.Pos()
-		_, ageOK := FieldPath(info, inner.Args[0], "execute.recover", "maxAge")
-		nowOK := false
-		if len(c.Args) == 1 {
-			if o := ObjOf(info, c.Args[0]); o != nil {
-				// defined as time.Now()
-				ast.Inspect(fn.Decl.Body, func(m ast.Node) bool {
-					if as, ok := m.(*ast.AssignStmt); ok && len(as.Lhs) == 1 && len(as.Rhs) == 1 && ObjOf(info, as.Lhs[0]) == o {
-						if cc, ok := ast.Unparen(as.Rhs[0]).(*ast.CallExpr); ok {
-							if f, ok := calleeFunc(info, cc); ok && FuncKey(f) == "time.Now" {
-								nowOK = true
-							}
-						}
-					}
-					return true
-				})
-			} else if cc, ok := ast.Unparen(c.Args[0]).(*ast.CallExpr); ok {
-				if f, ok := calleeFunc(info, cc); ok && FuncKey(f) == "time.Now" {
-					nowOK = true
+	for i := range paths {
+		p := &paths[i]
+		for j, e := range p.Ev {
+			if e.Kind != EvBranch || e.Cond == nil {
+				continue
+			}
+			for _, c := range branchConds(e) {
+				at, isAge := ageTest(info, c)
+				if !isAge || !originIsCall(info, p, j, at.T, execKey("lastUpdate")) {
+					continue
+				}
+				pos = e.Pos
+				_, ageOK := FieldPath(info, OriginOnPath(info, p, j, at.D), "execute.recover", "maxAge")
+				switch {
+				case !at.Older:
+					msg = "the staleness test is reversed (" + ExprStr(c) + "): a plan is stale when lastUpdate+maxAge lies before now"
+				case !ageOK:
+					msg = "the staleness test uses " + ExprStr(at.D) + " instead of the configured maxAge"
+				case !isNowOnPath(info, p, j, at.N):
+					msg = "the staleness test does not compare with time.Now()"
+				default:
+					okC, msg = true, ""
 				}
 			}
 		}
-		switch {
-		case sel.Sel.Name != "Before":
-			msg = "the staleness test uses ." + sel.Sel.Name + "(now); a plan is stale when lastUpdate+maxAge is Before now"
-		case !ageOK:
-			msg = "the staleness test adds " + ExprStr(inner.Args[0]) + " instead of the configured maxAge"
-		case !nowOK:
-			msg = "the staleness test does not compare with time.Now()"
-		default:
-			okC, msg = true, ""
-		}
-		return true
-	})
+	}
 	r.Check(rule, "filterPlans:staleness-test", pos, okC, "%s", orOK(msg, "lastUpdate(plan).Add(maxAge).Before(now)"))
 
 	lu := r.fnByKey(rule, execKey("lastUpdate"))
@@ -852,7 +820,16 @@ func ruleFilterCompaction(r *Run, rule string) {
 	for i := range paths {
 		p := &paths[i]
 		for j, e := range p.Ev {
-			if e.Kind != EvBranch || e.Cond == nil || !callsFunc(info, e.Cond, execKey("lastUpdate")) {
+			if e.Kind != EvBranch || e.Cond == nil || e.Depth > 0 {
+				continue
+			}
+			isStale := callsFunc(info, e.Cond, execKey("lastUpdate"))
+			for _, c := range branchConds(e) {
+				if at, ok := ageTest(info, c); ok && originIsCall(info, p, j, at.T, execKey("lastUpdate")) {
+					isStale = true
+				}
+			}
+			if !isStale {
 				continue
 			}
 			aged, removed := false, false
@@ -1021,64 +998,33 @@ func ruleValidateStartState(r *Run, rule string) {
 		return
 	}
 	info := fl.Info
-	type guard struct {
-		name string
-		is   func(cond ast.Expr) (matches bool, rejectWhenTrue bool)
-	}
-	guards := []guard{
-		{"maxSubmit-zero", func(c ast.Expr) (bool, bool) {
-			be, ok := ast.Unparen(c).(*ast.BinaryExpr)
-			if !ok {
-				return false, false
-			}
-			if _, m := FieldPath(info, be.X, "execute.Plans", "maxSubmit"); m {
-				if v, isC := ConstInt(info, be.Y); isC && v == 0 {
-					return true, be.Op == token.EQL || be.Op == token.LEQ
+	// The situations validateStartState must reject, whatever the shape of the tests (if ladder, tagless
+	// switch, helper predicates): assume the situation and require every accepting path to be impossible.
+	isMaxSubmit := fieldMatcher(info, "execute.Plans", "maxSubmit")
+	isSubmitTime := fieldMatcher(info, "workflow.Plan", "SubmitTime")
+	atom := func(e ast.Expr) (string, bool, bool) {
+		e = ast.Unparen(e)
+		if be, ok := e.(*ast.BinaryExpr); ok && isMaxSubmit(ast.Unparen(be.X)) {
+			if v, isC := ConstInt(info, be.Y); isC && v == 0 {
+				switch be.Op {
+				case token.EQL, token.LEQ:
+					return "maxSubmit-zero", false, true
+				case token.NEQ, token.GTR:
+					return "maxSubmit-zero", true, true
 				}
 			}
-			return false, false
-		}},
-		{"submit-time-zero", func(c ast.Expr) (bool, bool) {
-			call, ok := ast.Unparen(c).(*ast.CallExpr)
-			if !ok {
-				return false, false
-			}
-			sel, ok := call.Fun.(*ast.SelectorExpr)
-			if !ok || sel.Sel.Name != "IsZero" {
-				return false, false
-			}
-			_, m := FieldPath(info, sel.X, "workflow.Plan", "SubmitTime")
-			return m, true
-		}},
-		{"submit-time-stale", func(c ast.Expr) (bool, bool) {
-			call, ok := ast.Unparen(c).(*ast.CallExpr)
-			if !ok {
-				return false, false
-			}
-			sel, ok := call.Fun.(*ast.SelectorExpr)
-			if !ok {
-				return false, false
-			}
-			inner, ok := ast.Unparen(sel.X).(*ast.CallExpr)
-			if !ok || len(inner.Args) != 1 {
-				return false, false
-			}
-			isel, ok := inner.Fun.(*ast.SelectorExpr)
-			if !ok || isel.Sel.Name != "Add" {
-				return false, false
-			}
-			if _, m := FieldPath(info, isel.X, "workflow.Plan", "SubmitTime"); !m {
-				return false, false
-			}
-			if _, m := FieldPath(info, inner.Args[0], "execute.Plans", "maxSubmit"); !m {
-				return true, false // wrong duration: treated as not rejecting
-			}
-			return true, sel.Sel.Name == "Before"
-		}},
+		}
+		if recv, args, ok := timeMethod(info, e, "IsZero"); ok && len(args) == 0 && isSubmitTime(ast.Unparen(recv)) {
+			return "submit-time-zero", false, true
+		}
+		if at, ok := ageTest(info, e); ok && isSubmitTime(ast.Unparen(at.T)) && isMaxSubmit(ast.Unparen(at.D)) {
+			return "submit-time-stale", !at.Older, true
+		}
+		return "", false, false
 	}
-	for _, g := range guards {
+	for _, name := range []string{"maxSubmit-zero", "submit-time-zero", "submit-time-stale"} {
 		bad := ""
-		seen := false
+		nAccept, nReject := 0, 0
 		for i := range paths {
 			p := &paths[i]
 			if p.Exit != ExitReturn {
@@ -1086,7 +1032,7 @@ func ruleValidateStartState(r *Run, rule string) {
 			}
 			var ret *Event
 			for j := range p.Ev {
-				if p.Ev[j].Kind == EvReturn {
+				if p.Ev[j].Kind == EvReturn && !p.Ev[j].Deferred {
 					ret = &p.Ev[j]
 				}
 			}
@@ -1094,32 +1040,24 @@ func ruleValidateStartState(r *Run, rule string) {
 				continue
 			}
 			isNil, _ := ReturnsNilLast(info, *ret)
-			passed := false
-			for _, e := range p.Ev {
-				if e.Kind != EvBranch || e.Cond == nil {
-					continue
+			refuted := PathRefuted(fl, p, -1, map[string]bool{name: true}, atom)
+			if isNil {
+				nAccept++
+				if !refuted && bad == "" {
+					bad = "validateStartState accepts a plan on a path that is possible in the situation " + name + " (exit guard " + ExitGuardKey(fl, p) + ")"
 				}
-				if m, rej := g.is(e.Cond); m {
-					seen = true
-					if rej && !e.Taken {
-						passed = true
-					}
-					if rej && e.Taken && isNil && bad == "" {
-						bad = "the rejecting branch of " + g.name + " returns nil"
-					}
-					if !rej && bad == "" {
-						bad = "the " + g.name + " test has the wrong shape (" + ExprStr(e.Cond) + ")"
-					}
-				}
-			}
-			if isNil && !passed && bad == "" {
-				bad = "validateStartState accepts a plan on a path that did not pass the " + g.name + " test"
+			} else if !refuted {
+				nReject++
 			}
 		}
-		if !seen {
-			bad = "validateStartState has no " + g.name + " test"
+		if nAccept == 0 {
+			r.Unresolved(rule, "validateStartState accepting path")
+			return
 		}
-		r.Check(rule, "validateStartState:"+g.name, fn.Decl.Pos(), bad == "", "%s", orOK(bad, "rejects on "+g.name))
+		if nReject == 0 && bad == "" {
+			bad = "validateStartState has no rejecting path for " + name
+		}
+		r.Check(rule, "validateStartState:"+name, fn.Decl.Pos(), bad == "", "%s", orOK(bad, "rejects on "+name))
 	}
 	// validators: all four registered, and run over every walked item with error returned
 	av := r.fnByKey(rule, execKey("Plans.addValidators"))
@@ -1630,4 +1568,14 @@ func ruleRecoveryDeferred(r *Run, rule string, m *Machine) {
 		}
 		r.Check(rule, "early-terminal-write:"+st, pos, !writes, "%s stores the block as %s before the block's DeferredChecks have run: after a crash in that window fixBlock leaves the (no longer Running) block untouched and recovery ends the plan without ever running the block's deferred checks", st, strings.TrimPrefix(terminal, "workflow."))
 	}
+}
+
+// originIsCall: on this path the expression is (or was assigned from) a call of the function with this key.
+func originIsCall(info *types.Info, p *Path, idx int, e ast.Expr, key string) bool {
+	c, ok := ast.Unparen(OriginOnPath(info, p, idx, e)).(*ast.CallExpr)
+	if !ok {
+		return false
+	}
+	f, ok := calleeFunc(info, c)
+	return ok && FuncKey(f) == key
 }
